@@ -223,15 +223,30 @@ Proof. intros H. apply anc_inv in H. destruct H as [p [Hp _]]. eapply wf_parent_
 Lemma anc_entry_local s s' ps :
   (forall p, In p ps -> nth p s [] = nth p s' []) -> anc_entry s ps = anc_entry s' ps.
 Proof.
-  intros H. unfold anc_entry. f_equal.
-  induction ps as [|p r IH]; [reflexivity|]. cbn [flat_map].
-  rewrite (H p) by (left; reflexivity). rewrite IH; [reflexivity|].
-  intros q Hq. apply H. right. exact Hq.
+  intros H. unfold anc_entry.
+  assert (E : flat_map (fun p => p :: nth p s []) ps = flat_map (fun p => p :: nth p s' []) ps).
+  { induction ps as [|p r IH]; [reflexivity|]. cbn [flat_map].
+    rewrite (H p) by (left; reflexivity). rewrite IH; [reflexivity|].
+    intros q Hq. apply H. right. exact Hq. }
+  destruct ps as [|p [|q r]]; [reflexivity | | rewrite E; reflexivity].
+  rewrite (H p) by (left; reflexivity). reflexivity.
+Qed.
+
+Lemma anc_entry_In tbl ps a :
+  In a (anc_entry tbl ps) <-> exists p, In p ps /\ (a = p \/ In a (nth p tbl [])).
+Proof.
+  unfold anc_entry.
+  assert (G : In a (dedup (flat_map (fun p => p :: nth p tbl []) ps)) <->
+              exists p, In p ps /\ (a = p \/ In a (nth p tbl []))).
+  { rewrite dedup_In, in_flat_map. split; intros [p [Hp Ha]]; exists p; (split; [exact Hp|]); cbn [In] in *; intuition congruence. }
+  destruct ps as [|p [|q r]]; [exact G | | exact G].
+  cbn [In]. split.
+  - intros [<-|Ha]; exists p; (split; [left; reflexivity|]); [left; reflexivity | right; exact Ha].
+  - intros [p' [[<-|[]] [->|Ha]]]; [left; reflexivity | right; exact Ha].
 Qed.
 
 Lemma ancestors_unfold h c :
-  wf_hist h -> c < length h ->
-  ancestors h c = dedup (flat_map (fun p => p :: ancestors h p) (parents h c)).
+  wf_hist h -> c < length h -> ancestors h c = anc_entry (anc_table h) (parents h c).
 Proof.
   intros Hwf Hc. unfold ancestors at 1, anc_table.
   rewrite (build_unfold anc_entry [] anc_entry_local h c Hwf Hc). reflexivity.
@@ -244,7 +259,7 @@ Theorem ancestors_spec h : wf_hist h -> forall c a, In a (ancestors h c) <-> anc
 Proof.
   intros Hwf c. induction c as [c IH] using lt_wf_ind. intros a.
   destruct (Nat.lt_ge_cases c (length h)) as [Hc|Hc].
-  - rewrite ancestors_unfold by assumption. rewrite dedup_In, in_flat_map, anc_inv.
+  - rewrite ancestors_unfold by assumption. rewrite anc_entry_In, anc_inv.
     split.
     + intros [p [Hp Hin]]. exists p. split; [exact Hp|].
       destruct Hin as [->|Hin]; [left; reflexivity|]. right. apply (IH p (Hwf c p Hp)). exact Hin.
@@ -256,8 +271,14 @@ Qed.
 
 Lemma ancestors_NoDup h c : wf_hist h -> NoDup (ancestors h c).
 Proof.
-  intros Hwf. destruct (Nat.lt_ge_cases c (length h)) as [Hc|Hc].
-  - rewrite ancestors_unfold by assumption. apply dedup_NoDup.
+  intros Hwf. induction c as [c IH] using lt_wf_ind.
+  destruct (Nat.lt_ge_cases c (length h)) as [Hc|Hc].
+  - rewrite ancestors_unfold by assumption. unfold anc_entry.
+    destruct (parents h c) as [|p [|q r]] eqn:Ep; try apply dedup_NoDup.
+    assert (Hp : In p (parents h c)) by (rewrite Ep; left; reflexivity).
+    constructor; [|apply (IH p (Hwf c p Hp))].
+    change (nth p (anc_table h) []) with (ancestors h p). rewrite ancestors_spec by exact Hwf.
+    intros X. apply anc_lt in X; [lia | exact Hwf].
   - rewrite ancestors_out by exact Hc. constructor.
 Qed.
 
